@@ -88,6 +88,9 @@ def handle (j : Json) : Except String Json := do
     let tol ← getFloat j "tol"
     let slack ← getFloat j "slack"
     let typf ← getFloat j "typf"
+    -- reported derivatives (flattened; empty for quick_estimate) and the recomputed ones
+    let repD ← getVec j "reported_flat"
+    let reD ← getVec j "recomputed_flat"
     match resolve alg with
     | none => pure (Json.mkObj [("resolved", Json.null)])
     | some a =>
@@ -101,6 +104,7 @@ def handle (j : Json) : Except String Json := do
         ("final_ge_init", match initLL with | some i => jBool (decide (i ≤ logLike)) | none => Json.null),
         ("final_ge_start", jBool (decide (l0 ≤ logLike))),
         ("loglike_is_recomputed", jBool (logLike == lre)),
+        ("derivatives_maxabs_diff", fbits (maxAbsDiff repD reD)),
         ("rel_proj_grad", fbits (relProjGrad (if aware then some bounds else none) xs gre (negF (fun _ => lre) []) typf)),
         ("proj_grad_norm", fbits (projGradNorm effBounds xs gre)),
         ("kkt", jBool (kktB tol slack effBounds xs gre))])
